@@ -608,6 +608,10 @@ func runC15(c *Ctx) {
 	ruleWiring(c, a)
 	rulePassthru(c, "PASSTHRU")
 	ruleLoopVar(c, "ONCE", "service")
+	// "one status that names its real outcome": a relay direction fails only by its own fault — the other direction never closes
+	// the connection it is still copying from
+	ruleHalfClose(c)
+	ruleJoin(c, "HALFCLOSE")
 	ruleArityAll(c, "ARITY")
 	ruleDirWiring(c, "WIRING")
 }
